@@ -45,11 +45,11 @@ Pred(p, L) ==
               ELSE IF v.k = "unspec" \/ ~CmpFits([n |-> v.n, d |-> v.d], Norm(p.val[1], p.val[2])) THEN [keep |-> TRUE, L |-> L, open |-> TRUE]
               \* (the literal's pair is reduced first: products in the comparison must stay within 31 bits)
               ELSE [keep |-> RCmp(p.op, [n |-> v.n, d |-> v.d], Norm(p.val[1], p.val[2])), L |-> L, open |-> FALSE]
-    \* addr = ip("..."): no such label: drop; a value that is no address: keep and flag; IPv6 texts are outside the model
+    \* addr = ip("..."): no such label: drop; a value that is no address: keep and flag
     [] p.t = "ip" ->
          IF ~Has(L, p.label) THEN [keep |-> FALSE, L |-> L, open |-> FALSE]
-         ELSE LET v == Get(L, p.label) a == ParseIPv4(v) IN
-              IF ~IpScannable(v) THEN [keep |-> TRUE, L |-> L, open |-> TRUE]
+         ELSE LET v == Get(L, p.label) a == ParseIP(v) IN
+              IF a.open THEN [keep |-> TRUE, L |-> L, open |-> TRUE]
               ELSE IF ~a.ok THEN [keep |-> TRUE, L |-> SetError(L), open |-> FALSE]
               ELSE [keep |-> IpMatch(p.ipat, a.a) = (p.op = "eq"), L |-> L, open |-> FALSE]
     [] p.t = "paren" -> Pred(p.a, L)
@@ -65,7 +65,7 @@ RECURSIVE PredWellFormed(_)
 PredWellFormed(p) ==
   CASE p.t = "m" -> (p.op \in {"re", "nre"} => p.val = ReText(p.re))
     [] p.t \in {"num", "dur", "bytes"} -> LET v == Parse(p.t, p.lit) IN v.k = "val" /\ REq([n |-> v.n, d |-> v.d], [n |-> p.val[1], d |-> p.val[2]])
-    [] p.t = "ip" -> IpPatWellFormed(p.ipat) /\ p.val = IpPatText(p.ipat) /\ p.op \in {"eq", "neq"}
+    [] p.t = "ip" -> IpPatWellFormed(p.ipat) /\ IpPatDenotes(p.val, p.ipat) /\ p.op \in {"eq", "neq"}
     [] p.t = "paren" -> PredWellFormed(p.a)
     [] p.t \in {"and", "or"} -> PredWellFormed(p.a) /\ PredWellFormed(p.b)
 
@@ -159,9 +159,9 @@ Rewritten(rec, line) == line # rec.line
 Stage(st, mem, rec, line, L) ==
   CASE st.t \in {"logfmt", "json", "unpack"} /\ Rewritten(rec, line) -> R0(TRUE, line, L, mem, TRUE)
     \* an ip("...") needle: the line passes |= when it holds an address the pattern accepts, != is the complement;
-    \* IPv6 patterns (no ipat) and lines the IPv4 transcription does not cover are outside the modelled grammar
+    \* a pattern given without its structure (no ipat) is outside the modelled grammar
     [] st.t = "line" -> IF ~Fld(st, "ip", FALSE) THEN R0(LineMatch(st.op, st.val, st.re, line), line, L, mem, FALSE)
-                        ELSE IF Fld(st, "ipat", <<>>) = <<>> \/ ~IpScannable(line) THEN R0(TRUE, line, L, mem, TRUE)
+                        ELSE IF Fld(st, "ipat", <<>>) = <<>> THEN R0(TRUE, line, L, mem, TRUE)
                         ELSE R0(LineHasIp(st.ipat, line) = (st.op = "eq"), line, L, mem, FALSE)
     [] st.t = "label" -> LET r == Pred(st.pred, L) IN R0(r.keep, line, r.L, mem, r.open)
     [] st.t = "logfmt" ->
@@ -212,7 +212,7 @@ Stage(st, mem, rec, line, L) ==
 
 StageWellFormed(st) ==
   CASE st.t = "line" -> IF Fld(st, "ip", FALSE) /\ Fld(st, "ipat", <<>>) # <<>>
-                          THEN IpPatWellFormed(st.ipat) /\ st.val = IpPatText(st.ipat) /\ st.op \in {"eq", "neq"}
+                          THEN IpPatWellFormed(st.ipat) /\ IpPatDenotes(st.val, st.ipat) /\ st.op \in {"eq", "neq"}
                           ELSE (st.op \in {"re", "nre"} => st.val = ReText(st.re))
     [] st.t = "label" -> PredWellFormed(st.pred)
     [] st.t \in {"drop", "keep"} -> LET ms == Fld(st, "matchers", <<>>) IN \A k \in DOMAIN ms : ms[k].op \in {"re", "nre"} => ms[k].val = ReText(ms[k].re)
